@@ -16,7 +16,8 @@ Directives (one per line, `//@` first non-blank):
   //@ COPY UNTIL END                 copy everything up to the end of the region
   //@ COPY STMT [DROP "<field>:" ...]  copy exactly one statement (R1: drop the named struct-literal fields)
   //@ HEAD                           copy a loop / if header up to its `{` (brace not emitted: the template continues with invariants and `{`)
-  //@ CLOSE                          consume the matching `}` (emits `}`)
+  //@ CLOSE [QUIET]                  consume the matching `}` (emits `}` unless QUIET)
+  (REGION option `continue_as_return`: the region is a loop body verified as a function; R2b rewrites that loop's `continue;` to `return;`)
   //@ REPLACE STMT|HEAD EXPECT "<real text>" WITH "<new text>" RULE <Rn>
   //@ REPLACE BODY EXPECT "<real text up to the end of the open block>" WITH "<new text>" RULE <Rn>
   //@ SKIP STMT EXPECT "<real text>" RULE <Rn>
@@ -54,6 +55,15 @@ class Builder:
         text = self.src.text[a:b]
         if transform:
             text = transform(text)
+        if getattr(self, "cont_as_ret", False) and re.search(r"\bcontinue\b", self.src.masked[a:b]):
+            # R2b: the region is a loop BODY verified as a function; `continue` of that loop is
+            # the function's `return`. Only legal outside inner loops.
+            # stack[0] is the loop whose body this unit is; anything deeper is an inner block opened by HEAD
+            if len(self.stack) > 1 or re.search(r"\b(for|while|loop)\b", self.src.masked[a:b]):
+                raise AnchorLost(f"{self.file}:{self.src.line_of(a)}: `continue` inside an inner loop of a loop-body unit (unsupported)")
+            n = len(re.findall(r"\bcontinue\s*;", text))
+            text = re.sub(r"\bcontinue\s*;", "return;", text)
+            self.log.append({"rule": "R2b", "real": "continue;", "verified_as": "return;", "at": f"{self.file}:{self.src.line_of(a)}", "count": n})
         line = self.src.line_of(a)
         # keep leading indentation of first line
         ls = self.src.text.rfind("\n", 0, a) + 1
@@ -124,6 +134,7 @@ class Builder:
                 b = self.src._stmt_end(bpos, c)
             self.cur, self.end = a, b
         self.stack = []
+        self.cont_as_ret = "continue_as_return" in kv
         self.regions.append({"file": self.file, "fn": name, "lines": [self.src.line_of(self.cur), self.src.line_of(max(self.cur, self.end - 1))]})
 
     def check_sig(self, expected):
@@ -190,20 +201,22 @@ class Builder:
         if expect is not None:
             if norm(hdr) != norm(expect):
                 raise AnchorLost(f"{self.file}:{self.src.line_of(self.cur)}: header is `{norm(hdr)}`, rewrite {rule} expects `{norm(expect)}`")
-            self.out.append((replace, ("code", self.file, self.src.line_of(self.cur))))
-            self.log.append({"rule": rule, "real": norm(hdr), "verified_as": replace, "at": f"{self.file}:{self.src.line_of(self.cur)}"})
+            if replace.strip():
+                self.out.append((replace, ("code", self.file, self.src.line_of(self.cur))))
+            self.log.append({"rule": rule, "real": norm(hdr), "verified_as": replace or "(the loop-body function's signature)", "at": f"{self.file}:{self.src.line_of(self.cur)}"})
         else:
             self._emit_code(self.cur, self.cur + len(hdr))
         self.stack.append(self.src.match_close(k))
         self.cur = k + 1
 
-    def close(self):
+    def close(self, quiet=False):
         self._skip_ws()
         if not self.stack or self.cur != self.stack[-1]:
             got = norm(self.src.text[self.cur:self.cur + 60])
             raise AnchorLost(f"{self.file}:{self.src.line_of(self.cur)}: expected end of block, found `{got}` (real code has statements the unit does not cover)")
         self.stack.pop()
-        self.out.append(("}", ("code", self.file, self.src.line_of(self.cur))))
+        if not quiet:
+            self.out.append(("}", ("code", self.file, self.src.line_of(self.cur))))
         self.cur += 1
 
     def replace_stmt(self, expect, new, rule, skip=False):
@@ -272,7 +285,7 @@ def build(template_path, repo="/repo"):
         elif op == "HEAD":
             b.head()
         elif op == "CLOSE":
-            b.close()
+            b.close(quiet=len(toks) > 1 and toks[1] == "QUIET")
         elif op == "REPLACE":
             kind = toks[1]
             assert toks[2] == "EXPECT" and toks[4] == "WITH" and toks[6] == "RULE", d
